@@ -131,7 +131,9 @@ func genCfg(t *rapid.T) cfg {
 			c.Commands = append(c.Commands, []string{"", "{env.VERIF_C16_UNSET}"}[rapid.IntRange(0, 1).Draw(t, "emptySpelling")])
 		}
 	}
-	switch rapid.IntRange(0, 7).Draw(t, "credKind") {
+	switch rapid.IntRange(0, 8).Draw(t, "credKind") {
+	case 8:
+		c.Creds = map[string]string{"{env.VERIF_C16_USER}": "{env.VERIF_C16_PASS}"}
 	case 6:
 		// names and passwords are compared as configured: surrounding white space is part of them
 		c.Creds = map[string]string{" carol": "pw", "dave": " s3cret ", "erin": "hunter2\n"}
@@ -175,7 +177,22 @@ func genSession(t *rapid.T, c cfg) session {
 	passes := []string{"secret", "", "envpass", "nopass", "x", "wrong", "{env.VERIF_C16_PASS}"}
 	s.User = users[rapid.IntRange(0, len(users)-1).Draw(t, "user")]
 	s.Pass = passes[rapid.IntRange(0, len(passes)-1).Draw(t, "pass")]
-	switch rapid.IntRange(0, 4).Draw(t, "pairKind") {
+	switch rapid.IntRange(0, 5).Draw(t, "pairKind") {
+	case 5:
+		// a configured user name (placeholders resolved) with no password, an earlier value of it, or somebody else's
+		if len(c.Creds) > 0 {
+			us := make([]string, 0, len(c.Creds))
+			for u := range c.Creds {
+				us = append(us, u)
+			}
+			sort.Strings(us)
+			s.User = resolve(us[rapid.IntRange(0, len(us)-1).Draw(t, "knownUser")])
+			s.Pass = []string{"", "oldpass", resolve(c.Creds[us[rapid.IntRange(0, len(us)-1).Draw(t, "otherUser")]])}[rapid.IntRange(0, 2).Draw(t, "whichPass")]
+			s.Auth = true
+			if !bytes.Contains(s.Methods, []byte{2}) {
+				s.Methods = append(s.Methods, 2)
+			}
+		}
 	case 4:
 		// something close to a configured entry: white space trimmed, or the same characters split elsewhere
 		if len(c.Creds) > 0 {
@@ -326,6 +343,15 @@ func handlerJSON(c cfg) map[string]any {
 // handler under test and after those provisioned after it. What they enable
 // is their business; the handler under test answers for c alone.
 func runSession(t hx.TB, ln net.Listener, tg *target, c cfg, before2, after2 []cfg, s session, class string) {
+	if len(before2) > 0 && len(c.Creds) > 0 {
+		// a configuration reload after secrets were rotated: the very same configuration text was provisioned earlier,
+		// when the placeholders had other values, and that instance is still around
+		os.Setenv("VERIF_C16_PASS", "oldpass")
+		os.Setenv("VERIF_C16_CMD", "bind")
+		_, _ = rx.Routes(rx.BareCtx(), []rx.R{{Handle: []map[string]any{handlerJSON(c)}}})
+		os.Setenv("VERIF_C16_PASS", "envpass")
+		os.Setenv("VERIF_C16_CMD", "connect")
+	}
 	for _, o := range before2 {
 		_, _ = rx.Routes(rx.BareCtx(), []rx.R{{Handle: []map[string]any{handlerJSON(o)}}})
 	}
@@ -461,6 +487,12 @@ func TestSessions(t *testing.T) {
 			before = rapid.SliceOfN(rapid.Custom(genCfg), 0, 2).Draw(rt, "before")
 			after = rapid.SliceOfN(rapid.Custom(genCfg), 0, 2).Draw(rt, "after")
 		}
-		runSession(rt, ln, tg, c, before, after, genSession(rt, c), "generated")
+		sess := genSession(rt, c)
+		if _, rotating := c.Creds["{env.VERIF_C16_USER}"]; rotating && len(before) > 0 && rapid.Bool().Draw(rt, "presentsRotatedOutSecret") {
+			// the client still has the password from before the rotation
+			sess.Ver, sess.Auth, sess.User, sess.Pass, sess.Truncate = 5, true, "envuser", "oldpass", 0
+			sess.Methods = []byte{2}
+		}
+		runSession(rt, ln, tg, c, before, after, sess, "generated")
 	})
 }
